@@ -209,7 +209,7 @@ CHECKS = {
    text="TLC checks on Funnel.tla that what escapes the layered exception handlers is an InvalidDefinitionError with a path "
         "exactly for raise sites of the InvalidDefinition family, and enumerates every single token mutation (and adjacent "
         "double mutations) of three seed definitions over a 116-entry vocabulary (incl. references to six faulty dependencies, one per class of fault, whose file the error must then name). Every mutated text, every state of Expr.tla's "
-        "operator x operand-kind grid in five expression contexts, 45 corner texts, seeded "
+        "operator x operand-kind grid in five expression contexts, 55 corner texts (incl. nesting of 45..400 levels and chains of 3 000 operators), seeded "
         "character noise, 31 file-name shapes and 6 duplicate file sets are read: model or InvalidDefinitionError with path; the "
         "recorded chain of exception conversions of every rejected mutation is validated by TLC (TraceFunnel.tla).",
    note="Known finding F10 (4300-digit rendering limit) is matched by its cause. Unbounded power towers are excluded "
